@@ -88,7 +88,7 @@ def shard_text(results):
 # ------------------------------------------------------------------ fmt_fixed vs CPython
 def fmt_shard(doubles):
     """doubles: list of (digits, float).  Coq prints the indices where fmt_fixed differs from CPython's format."""
-    items = lst("(%d, %s, %s)" % (n, fl(x.hex()), cs("{:.{}f}".format(x, n))) for n, x in doubles)
+    items = lst("(%d%%nat, %s, %s)" % (n, fl(x.hex()), cs("{:.{}f}".format(x, n))) for n, x in doubles)
     return HEAD + """Definition cases : list (nat * float * string) := %s.
 Definition bad := bad_at (fun (c : nat * float * string) (_ : unit) => let '(n, x, s) := c in
      andb (String.eqb (fmt_fixed n x) s)
